@@ -163,6 +163,24 @@ def thin_configs(max_n, l_max=3, deformed=False):
     return out
 
 
+def ignored_parameter_configs(max_n, l_max=3, deformed=False):
+    """Color666PlanarCode takes (L_x, L_y) but builds the triangle of side L_x whatever L_y is: every
+    L_y != L_x is accepted and is a valid code on the reference tree (same code as (L_x, L_x))."""
+    out = []
+    name = 'Color666PlanarCode'
+    for s in itertools.product(range(1, l_max + 1), repeat=2):
+        if s[0] == s[1]:
+            continue
+        n = n_qubits(name, s)
+        if n is None or n > max_n:
+            continue
+        out.append({'cls': name, 'size': list(s), 'deformation': None})
+        if deformed:
+            for d in deformations(name):
+                out.append({'cls': name, 'size': list(s), 'deformation': d})
+    return out
+
+
 def cfg_label(cfg):
     d = cfg.get('deformation')
     return '%s%s%s%s' % (cfg['cls'], tuple(cfg['size']), '' if not d else '+%s%s' % (d[0], d[1] or ''),
